@@ -30,7 +30,7 @@ def gen_cases(tier, seed):
         desc['labels'] = r.choice(gen.LABEL_SCHEMES)
         nn = desc['n']
         I0 = r.sample(range(nn), r.randint(1, min(nn, 3)))
-        tmin = r.choice([0, -2, 1.5, -0.5])
+        tmin = r.choice([0, -2, 1.5, -0.5, 1600000000])          # incl. an absolute clock (seconds since an epoch)
         tmax = tmin + r.choice([1.0, 3.0, 7.0])
         if tmin < 0 and r.random() < 0.4:
             tmax = r.choice([0, 0.0])          # horizon exactly zero (a falsy number) after a negative start
